@@ -634,7 +634,7 @@ class PCACDDriver(Driver):
         class FakePCA:
             def __init__(self, ev):
                 self.ev = ev
-                self.components_ = [None] * npcs
+                self.components_ = np.zeros((npcs, 0))  # an array, as sklearn's (row count = retained components)
 
             def fit(self, X):
                 rec.append(("pca.fit", X))
